@@ -81,4 +81,31 @@ func init() {
 		rule: "explicit Broadcast: every source shape x every target of the expansion grid (leading dims added, size-1 dims expanded, both, factor 1); implicit expansion: Add/Sub/Mul/Div over every broadcast-compatible ordered pair of different shapes, Dot and MatMul over compatible batch shapes, every non-empty subset of tracked operands; z = y*g, BackPropagate(z); expected = sum of upstream gradient over copies (by differentiation of the definition); each case with factor > 1 also carries the gradient under the recorded deviation broadcast_grad_mean (want / factor) and is classified as that known finding only if it matches it exactly; distinct = distinct (op, shapes, tracked subset)",
 		assumptions: []string{"known finding D2 (known_findings.json): cases matching the deviation's prediction are counted as the finding, anything else is a violation"},
 	}))
+	register("C12", "exploration", symCheck(symSpec{
+		module: "Gen_C12", partsQ: 1, partsT: 2, assignQ: 60, assignT: 400,
+		rule: "MSE / BCE for batch sizes 1..3 (1..5), CE for batch x classes 1..3 x 1..3 (1..5 x 1..4), prediction tracked and untracked, plus rejected shape combinations; 60 (400) assignments per case drawn from {0, 1, <0, >1, +-1e6, within 1e-12 of either clipping bound on both sides, interior}; value compared with the statement's formula and required finite and >= 0; distinct = distinct (loss, shape, tracked)",
+	}))
+	register("C13", "exploration", symCheck(symSpec{
+		module: "Gen_C13", partsQ: 4, partsT: 8, assignQ: 30, assignT: 150,
+		rule: "loss x shape x {prediction leaf / target tracked variants, prediction = x.Scale(1/2).Add(d), prediction = FC->Sigmoid->BCE, FC->Tanh->MSE, FC->Softmax->CE}: BackPropagate(loss), gradient of the prediction and of everything upstream compared with the derivative of the loss definition (closed forms checked by TLC on rational instances); predictions include exactly 0 and 1 and values within 1e-12 of the bounds (the two bounds themselves excluded as in the statement); untracked inputs must have no gradient; FC cases with batch > 1 carry the asis expectation of finding D2; distinct = distinct program",
+		assumptions: []string{"known finding D2 reaches this property only through FC / Softmax upstream of the loss (known_findings.json)"},
+	}))
+	register("C14", "exploration", symCheck(symSpec{
+		module: "Gen_C14", partsQ: 2, partsT: 8, assignQ: 12, assignT: 40,
+		rule: "Relu, LeakyRelu (nil config, slopes 0, 1/2, -1, 3), Sigmoid, Tanh over every shape of the grid; Softmax for every dim of every shape (and the nil config) together with its sum along dim, required >= 0; dims >= rank or negative must be rejected; inputs include 0, -0, |x| up to 700; distinct = distinct (activation, shape, parameter)",
+	}))
+	register("C15", "exploration", symCheck(symSpec{
+		module: "Gen_C15", partsQ: 4, partsT: 16, assignQ: 12, assignT: 40,
+		rule: "activation x shape x {input is a leaf, input is the interior tensor x.Scale(3)} x parameter (slopes, every Softmax dim), z = act(x)*g, BackPropagate(z); gradient of the input (and of the leaf upstream) compared with the derivative of the activation's definition; at exactly 0 Relu/LeakyRelu accept any value between the one-sided derivatives; Softmax closed form checked by TLC; Softmax cases carry the asis expectation of finding D2; distinct = distinct program",
+		assumptions: []string{"known finding D2 reaches this property through the expanding Div inside Softmax (known_findings.json)"},
+	}))
+	register("C16", "exploration", symCheck(symSpec{
+		module: "Gen_C16", partsQ: 4, partsT: 16, assignQ: 8, assignT: 20,
+		rule: "batch, features, outputs in 1..3 (1..4) x 5 subsets of tracked {W, B, x}; layer built by NewFC, parameters replaced through the Weights() pointers, Forward, z = y*g, BackPropagate(z); values and gradients compared with y[b][o] = W[o]*sum_d x[b][d] + B[o] and its derivatives (distinct symbols everywhere); rejected input ranks; batch > 1 carries the asis expectation of finding D2 for W and B; distinct = distinct (sizes, tracked subset)",
+		assumptions: []string{"known finding D2: W and B are expanded over the batch (known_findings.json)"},
+	}))
+	register("C17", "exploration", symCheck(symSpec{
+		module: "Gen_C17", partsQ: 2, partsT: 8, assignQ: 8, assignT: 24,
+		rule: "shape x learning rate {nil config, 0, -1/2, 2, 1/3}: w tracked leaf, BackPropagate(w*c) so that grad(w) = c, Update(&w): new tensor = w - lr*g element-wise with the same shape, pointer target replaced, old tensor object / values / gradient unchanged (bit-for-bit snapshots); a tensor without gradient must be rejected with nothing replaced; distinct = distinct (shape, learning rate)",
+	}))
 }
